@@ -41,6 +41,7 @@ CONSTANTS
     SelfDepPanics, \* TRUE: pinned behaviour, add_dep asserts self.id != src.id (exit 101)
     Links,      \* [link name -> Seq(names)]: sources that are symbolic links, and what the user may point them to
                 \* (initially the first; the pointees are sources that are never removed)
+    LogViewer,  \* TRUE: top-level commands run with their log viewer (redo-log), which probes target locks
     Alias,      \* [spelling -> name]: other spellings (./a, d/../a, ...) of files, as they may appear on command lines
                 \* and in scripts; every spelling of a file is that file (one record, one lock, one build)
     NameSeq     \* all file names in the order of SQL `order by name` (TLC cannot compare strings)
@@ -430,6 +431,22 @@ Consider(p) ==
                       /\ UNCHANGED <<fs, tmp, clock, runid, locks, cmd, hist, ran, ncmds, pool, gh>>
                    ELSE Decide(p, t, w1, nxt)
 
+\* The log viewer learns that the writer of a log has finished by a momentary exclusive try_lock on the *target* lock
+\* (log.rs: is_locked).  A builder's try_lock can therefore fail although nobody builds the target; the target then goes
+\* through the queue and the second phase like one that another builder holds.  The viewer only looks at targets whose
+\* log it reads, i.e. targets that were started in this command.
+ConsiderProbe(p) ==
+    LET P == procs[p] IN
+    /\ LogViewer /\ P.kind = "redo" /\ P.pc = "pass1" /\ P.i <= Len(P.targs)
+    /\ LET t == P.targs[P.i] IN
+       /\ t \notin {P.targs[k] : k \in 1..(P.i - 1)}
+       /\ P.tok = 1 /\ ~(P.err # 0 /\ ~P.keep)
+       /\ ~P.unl /\ t \notin P.cyc /\ locks[t] = NoPid
+       /\ t \in {ran[i] : i \in 1..Len(ran)}
+       /\ w' = FromName(w, t)
+       /\ procs' = [procs EXCEPT ![p] = [P EXCEPT !.i = P.i + 1, !.queue = Append(@, t)]]
+    /\ UNCHANGED <<fs, tmp, clock, runid, locks, cmd, hist, ran, ncmds, pool, gh>>
+
 \* JobServer::is_running: children not yet reaped
 NoneRunning(P) == \A j \in P.jobs : j.st # "run"
 
@@ -763,7 +780,7 @@ CrashOne(p) ==
 
 \* one named action per atomic unit, so that TLC's coverage reports each
 DeclareA    == \E p \in DOMAIN procs : Declare(p)
-ConsiderA   == \E p \in DOMAIN procs : Consider(p)
+ConsiderA   == \E p \in DOMAIN procs : Consider(p) \/ ConsiderProbe(p)
 Pass2A      == \E p \in DOMAIN procs : Pass2(p)
 FinishA     == \E p \in DOMAIN procs : Finish(p)
 AcquireA    == \E p \in DOMAIN procs : Acquire(p)
